@@ -75,9 +75,13 @@ def run_rankdef(run, prop, binp, rng, n, codes):
         m = c["meta"]
         lo, hi = m["range"]
         a = [hx(v, c["scalar"]) for v in distinct_params(rng, m["P"], lo, hi)]
-        c["ops"] = [["observe"], ["tables"], ["set", a], ["observe"], ["tables"]]
+        c["ops"] = [["observe"], ["tables"], ["svd"], ["set", a], ["observe"], ["tables"], ["svd"]]
         c["id"] = 100000 + i
         rcases.append(c)
+    # minimised / recorded past disagreements run first (corpus)
+    cp = os.path.join(ROOT, "corpus", "rankdef.json")
+    if os.path.exists(cp):
+        rcases = json.load(open(cp)) + rcases
     rres = run_harness(binp, "scenario", rcases, workdir, timeout_ms=20000, tag="rd")
     rterms, ridx = [], []
     for c, r in zip(rcases, rres):
@@ -86,8 +90,8 @@ def run_rankdef(run, prop, binp, rng, n, codes):
             continue
         sel = RANKDEF[c["meta"]["family"]][3]
         st = r["steps"]
-        for k in (0, 3):
-            t = num.rankdef_term(c, st[k]["v"], st[k + 1]["v"], sel)
+        for k in (0, 4):
+            t = num.rankdef_term(c, st[k]["v"], st[k + 1]["v"], sel, mode=(1 if 3 in codes else 0) + (2 if 4 in codes else 0))
             if t is not None:
                 rterms.append(t)
                 ridx.append((c, r, k))
@@ -96,6 +100,35 @@ def run_rankdef(run, prop, binp, rng, n, codes):
     for (c, r, k), code, t in zip(ridx, rcodes, rterms):
         rhist[code] = rhist.get(code, 0) + 1
         if code in codes and code in RD_TEXT:
-            run.violation("rank-deficient state #%d: %s" % (k, RD_TEXT[code]),
-                          {"case": c, "step": k, "observe": r["steps"][k]["v"], "tables": r["steps"][k + 1]["v"], "coq_term": t})
+            # is the decomposition nalgebra handed back a decomposition of the weighted basis matrix at all?
+            bad_svd = not svd_reconstructs(c, r["steps"][k + 1]["v"], r["steps"][k + 2]["v"])
+            run.violation("rank-deficient state #%d: %s%s" % (k, RD_TEXT[code], " (the SVD factors returned by nalgebra do not reconstruct the matrix)" if bad_svd else ""),
+                          {"case": c, "step": k, "observe": r["steps"][k]["v"], "tables": r["steps"][k + 1]["v"], "svd": r["steps"][k + 2]["v"],
+                           "coq_term": t, "svd_is_a_decomposition": not bad_svd},
+                          key=("nalgebra-svd-not-a-decomposition" if bad_svd else None))
     return rterms, rhist
+
+
+def svd_reconstructs(case, tables, svd):
+    """exact check of the contract svd_spec on the factors the implementation cached (hook verif_svd):
+    || W Phi - U diag(s) V^T ||_F <= 1e-9 ||W Phi||_F"""
+    from fractions import Fraction
+    if svd is None or svd.get("u") is None or svd.get("vt") is None or tables.get("phi") is None:
+        return True
+    w = num.weights_of(case)
+    phi = [[frac(h) for h in col] for col in tables["phi"]["cols"]]
+    n = len(phi[0])
+    if w is not None:
+        wf = [frac(h) for h in w]
+        phi = [[wf[i] * col[i] for i in range(n)] for col in phi]
+    U = [[frac(h) for h in col] for col in svd["u"]["cols"]]
+    S = [frac(h) for h in svd["s"]]
+    Vt = [[frac(h) for h in col] for col in svd["vt"]["cols"]]     # columns of V^T: Vt[j][k] = (V^T)_{k j}
+    err = Fraction(0)
+    nrm = Fraction(0)
+    for j, col in enumerate(phi):
+        for i in range(n):
+            rec = sum(U[k][i] * S[k] * Vt[j][k] for k in range(len(S)))
+            err += (col[i] - rec) ** 2
+            nrm += col[i] ** 2
+    return err <= Fraction(1, 10 ** 18) * max(nrm, Fraction(1, 10 ** 30))
